@@ -1653,3 +1653,19 @@ def _scoping_instance_attrs(repo, ob, failure):
 GENERATORS.insert(0, ("C15.instance.scoping", _scoping_instance_attrs))
 GENERATORS.insert(0, ("C18.instance.scoping", _scoping_instance_attrs))
 GENERATORS.insert(0, ("C18.instance.size_includes", _scoping_instance_attrs))
+
+
+def _clipped_polyline_instance(repo, ob, failure):
+    """x / y on a reuse of a polyline / polygon / path template move the instance whether or not its box is already known"""
+    import re as _re
+    doc = ('<svg><defs><clipPath id="cp"><rect wh="10"/></clipPath></defs><specs><polyline id="p" points="0 0 20 0 20 20" clip-path="url(#cp)"/></specs>'
+           '<reuse href="#p" x="30" y="5"/></svg>')
+    r = run_svgdx(repo, doc, args=("--no-auto-styles",))
+    m = _re.search(r'<polyline [^>]*class="p"[^>]*>', r["out"])
+    if r["rc"] == 0 and m and 'transform="translate(30, 5)"' not in m.group(0):
+        return {"input": doc, "args": ["--no-auto-styles"], "observed": m.group(0), "expected": '... transform="translate(30, 5)" ...'}
+    return None
+
+
+GENERATORS.insert(0, ("C18.place.shape_moved", _clipped_polyline_instance))
+GENERATORS.insert(0, ("C11.place.shape_moved", _clipped_polyline_instance))
